@@ -42,6 +42,7 @@ func triOf(b bool) tri {
 type ordEval struct {
 	isA, isB func(ssa.Value) bool
 	ord      ordering
+	assume   map[ssa.Value]bool
 }
 
 func cmpInt(o ordering, swapped bool) int {
@@ -104,6 +105,9 @@ func (e *ordEval) eval(v ssa.Value, pred *ssa.BasicBlock, depth int) tri {
 	if depth > 12 {
 		return triUnknown
 	}
+	if b, ok := e.assume[v]; ok {
+		return triOf(b)
+	}
 	switch x := v.(type) {
 	case *ssa.Const:
 		if b, ok := constBool(x); ok {
@@ -116,6 +120,12 @@ func (e *ordEval) eval(v ssa.Value, pred *ssa.BasicBlock, depth int) tri {
 				return triFalse
 			case triFalse:
 				return triTrue
+			}
+		}
+		if x.Op == token.MUL {
+			// a result spilled through a local cell (named results, defers)
+			if s := loadedValue(x); s != nil {
+				return e.eval(s, pred, depth+1)
 			}
 		}
 	case *ssa.BinOp:
@@ -178,9 +188,13 @@ func (e *ordEval) eval(v ssa.Value, pred *ssa.BasicBlock, depth int) tri {
 // (A, B). possible[o] is the set of results reachable (bit 1: false, bit 2:
 // true); ok=false when the walk exceeded its budget.
 func orderTable(f *ssa.Function, isA, isB func(ssa.Value) bool, res int) (possible [3]int, ok bool) {
+	return orderTableAssume(f, isA, isB, res, nil)
+}
+
+func orderTableAssume(f *ssa.Function, isA, isB func(ssa.Value) bool, res int, assume map[ssa.Value]bool) (possible [3]int, ok bool) {
 	ok = true
 	for o := ordLT; o <= ordGT; o++ {
-		e := &ordEval{isA: isA, isB: isB, ord: o}
+		e := &ordEval{isA: isA, isB: isB, ord: o, assume: assume}
 		budget := 4000
 		type state struct {
 			b, pred *ssa.BasicBlock
@@ -254,4 +268,29 @@ func fmtTable(p [3]int) string {
 		s += o.String() + "→" + names[p[o]]
 	}
 	return s
+}
+
+// edgeExcl: the edge is taken only when the ordering of (A, B) is none of
+// `excluded` — however the comparison is spelled.
+func edgeExcl(isA, isB func(ssa.Value) bool, excluded ...ordering) EdgePred {
+	return func(b *ssa.BasicBlock, s int) bool {
+		ifi := ifOf(b)
+		if ifi == nil {
+			return false
+		}
+		tab := condTable(ifi.Cond, isA, isB)
+		for _, o := range excluded {
+			if tab[o] == triUnknown {
+				return false
+			}
+			takes := 1
+			if tab[o] == triTrue {
+				takes = 0
+			}
+			if takes == s {
+				return false
+			}
+		}
+		return true
+	}
 }
